@@ -71,6 +71,11 @@ TRUSTED = [
 PARTIAL = [
     "extras named server_id / request_id are overwritten by the framework's own top-level ids on the client (C08_fields_extras "
     "excludes exactly these two keys)",
+    "a lone surrogate in the message TEXT (not in an extra) cannot be stored in Arrow metadata (UTF-8): the emitting client_log() call "
+    "raises UnicodeEncodeError inside the implementation, which is reported as that call's error (not a silent loss); extras — keys "
+    "and values — with lone surrogates are covered",
+    "an extra named `error_kind` whose value has a lone surrogate is hoisted verbatim to the top-level vgi_rpc.error_kind value and "
+    "fails to encode like a message text would (same visible UnicodeEncodeError at the emitting call); excluded from the generator",
     "a message emitted at level EXCEPTION is the error channel (raised as RpcError), not a log (C08_fields requires level != EXCEPTION)",
     "subprocess transport is not exercised (same code path as pipe)",
 ]
@@ -97,8 +102,10 @@ MANIFEST = {
 }
 
 LEVELS = ["ERROR", "WARN", "INFO", "DEBUG", "TRACE"]
-KEYS = ["k", "user", "n", "trace.id", "a b", "ключ", "Level", "msg", "extra", "x" * 30, "0", "exception_type", "error_kind", "traceback"]
-VALS = ["v", "", "1", "ü", "x" * 50, "line\nbreak", "{\"json\": 1}", "None", " spaced "]
+KEYS = ["k\udce9", "k", "user", "n", "trace.id", "a b", "ключ", "Level", "msg", "extra", "x" * 30, "0", "exception_type", "error_kind", "traceback"]
+# lone surrogates: what os.fsdecode() gives for undecodable file names (PEP 383) and raw unpaired halves
+SURROGATE_VALS = ["caf\udce9.txt", "\ud800", "a\udfffb", "\udc80\udcff"]
+VALS = SURROGATE_VALS + ["v", "", "1", "ü", "x" * 50, "line\nbreak", "{\"json\": 1}", "None", " spaced "]
 
 
 # ------------------------------------------------------------------------------------------ (a) generators
@@ -107,7 +114,10 @@ VALS = ["v", "", "1", "ü", "x" * 50, "line\nbreak", "{\"json\": 1}", "None", " 
 def gen_log(rng: Any) -> dict[str, Any]:
     extra = {}
     for _ in range(rng.choice([0, 0, 1, 2, 3])):
-        extra[rng.choice(KEYS)] = rng.choice(VALS)
+        k, v = rng.choice(KEYS), rng.choice(VALS)
+        if k == "error_kind" and v in SURROGATE_VALS:
+            v = "v"   # an extra named error_kind is hoisted verbatim to a top-level metadata value (UTF-8): see PARTIAL
+        extra[k] = v
     return {"level": rng.choice(LEVELS), "text": rng.choice(["m", "hello world", "", "línea\n2", "t" * 40, "nul\x00"]) + str(rng.randrange(1000)),
             "extra": extra}
 
@@ -270,7 +280,28 @@ def _is_subseq(a: list[Any], b: list[Any]) -> bool:
 # ------------------------------------------------------------------------------------------ (a) model
 
 
+_SUR = {c: 0xF0000 + (c - 0xD800) for c in range(0xD800, 0xE000)}
+_UNSUR = {v: k for k, v in _SUR.items()}
+
+
+def deep_map(x: Any, table: dict[int, int]) -> Any:
+    """Lean's `Char` has no surrogate code points: for the model, lone surrogates are renamed (bijectively) into a private-use
+    plane the generators never use, and renamed back in the model's answer — the model treats these strings opaquely."""
+    if isinstance(x, str):
+        return x.translate(table)
+    if isinstance(x, list):
+        return [deep_map(v, table) for v in x]
+    if isinstance(x, dict):
+        return {deep_map(k, table): deep_map(v, table) for k, v in x.items()}
+    return x
+
+
 def model_for(ctx: Any, m: dict[str, Any], n_inputs: int | None) -> dict[str, list[Any]] | None:
+    r = _model_for(ctx, deep_map(m, _SUR), n_inputs)
+    return None if r is None else deep_map(r, _UNSUR)
+
+
+def _model_for(ctx: Any, m: dict[str, Any], n_inputs: int | None) -> dict[str, list[Any]] | None:
     d = ctx.driver
     if d is None:
         return None
@@ -614,7 +645,12 @@ def sink_impl(ops: list[list[Any]]) -> dict[str, Any]:
 
 def sink_case(ctx: Any, ops: list[list[Any]]) -> None:
     case = {"part": "sink", "ops": ops}
-    got = sink_impl(ops)
+    try:
+        got = sink_impl(ops)
+    except Exception as e:  # noqa: BLE001
+        ctx.case(case, nontrivial=True, tags=("sink",))
+        ctx.fail(case, f"C08:log-emission-fails:{type(e).__name__}:sink", f"emitting / flushing a client log raised {type(e).__name__}: {str(e)[:120]}")
+        return
     ctx.case(case, nontrivial=any(o[0] == "call" for o in ops), tags=("sink",))
     # O: conservation — everything emitted is written exactly once in order, or still buffered; after a flush nothing stays buffered
     called = [clog(o[1]) for o in ops if o[0] == "call"]
@@ -633,9 +669,9 @@ def sink_case(ctx: Any, ops: list[list[Any]]) -> None:
                      f"a message emitted after flush_contents (schema empty: {attached}) was not written to the stream")
             break
     if ctx.driver is not None:
-        mops = [["call", c01.dlog(o[1])] if o[0] == "call" else list(o) for o in ops]
+        mops = [["call", c01.dlog(deep_map(o[1], _SUR))] if o[0] == "call" else list(o) for o in ops]
         m = ctx.driver.call("C08.sink", {"ops": mops})
-        mod = {"written": [[c01.model_ev(e) for e in w] for w in m["written"]], "buffer": [c01.model_ev(e) for e in m["buffer"]]}
+        mod = deep_map({"written": [[c01.model_ev(e) for e in w] for w in m["written"]], "buffer": [c01.model_ev(e) for e in m["buffer"]]}, _UNSUR)
         if mod != got:
             ctx.mismatch(case, mod, got, "_ClientLogSink vs Lean C08.sinkStep")
 
@@ -711,7 +747,7 @@ def gen_json(rng: Any, depth: int = 0) -> Any:
         return rng.choice(["v", "", "ü", 1, -3, 2.5, True, False, None, "x" * 30, 10**18, "line\n"])
     if r < 0.7:
         return [gen_json(rng, depth + 1) for _ in range(rng.choice([0, 1, 2, 3]))]
-    return {rng.choice(KEYS + ["level", "message", "self", "server_id", "request_id"]): gen_json(rng, depth + 1) for _ in range(rng.choice([0, 1, 2, 4]))}
+    return {rng.choice(KEYS[1:] + ["level", "message", "self", "server_id", "request_id"]): gen_json(rng, depth + 1) for _ in range(rng.choice([0, 1, 2, 4]))}
 
 
 def gen_peer_md(rng: Any) -> dict[bytes, bytes] | None:
@@ -1095,7 +1131,17 @@ def _corpus_a() -> list[tuple[dict[str, Any], list[list[Any]]]]:
         {"name": "fin", "kind": "producer", "header": False, "init_logs": [], "init": "ok",
          "steps": [{"logs": [Lg("z")], "act": {"emit_finish": {"id": 5, "rows": 60}}, "post": [Lg("pz")]}]},
     ]}
-    s1 = [["open", "p", 1], ["iter", None], ["close"], ["open", "n", 1], ["iter", None], ["close"], ["call", "u", 1],
+    sur = "caf\udce9.txt"
+    d["methods"] += [
+        {"name": "su", "kind": "unary", "logs": [Lg("fs", path=sur), Lg("half", **{"k\udce9": "\ud800"})], "out": {"ok": 9}},
+        {"name": "sp", "kind": "producer", "header": False, "init_logs": [Lg("spi", path=sur)], "init": "ok",
+         "steps": [{"logs": [Lg("s0", path=sur)], "act": {"emit": {"id": 1}}, "post": [Lg("s0p", p="a\udfffb")]},
+                   {"logs": [Lg("s1", path=sur)], "act": E("ValueError", "x"), "post": []}]},
+        {"name": "sx", "kind": "exchange", "header": False, "init_logs": [], "init": "ok",
+         "steps": [{"logs": [Lg("x0", path=sur)], "act": {"emit": {"id": 2}}, "post": []}]},
+    ]
+    s1 = [["call", "su", 1], ["open", "sp", 1], ["iter", None], ["close"], ["open", "sx", 1], ["send", 0], ["close"], ["call", "su", 2],
+          ["open", "p", 1], ["iter", None], ["close"], ["open", "n", 1], ["iter", None], ["close"], ["call", "u", 1],
           ["open", "x", 1], ["send", 0], ["send", 1], ["close"], ["open", "xf", 1], ["send", 0], ["close"],
           ["open", "f", 1], ["iter", None], ["close"], ["open", "fh", 1], ["send", 0], ["close"], ["call", "ue", 1],
           ["open", "fin", 1], ["iter", None], ["close"]]
